@@ -22,12 +22,13 @@ func init() {
 			"(R7) at most one version is the current release: every store of a non-false value to ResourceVersion.CurrentRelease is preceded on every feasible path by a complete reset loop - a range over the resource's versions that clears the flag in every iteration and has no exit but the end of the range. " +
 			"(R8) error discipline over package updater: " + repoErrText + ". " +
 			"(R9) selectVersion decides afresh on every call: every exit has stored SelectedVersion in this call (nil only for an empty version list), so the last-resort stage is not conditional on an earlier selection. " +
+			"(R10) GetIdentifierAndVersion and GetVersionedPath use their path parameter only as the argument of path.Split, and the version pattern is searched in the file-name part: directory names never take part in the conversion. " +
 			"NOT decided: correctness over all version multisets, semantic-version ordering, the file-name regexes.",
 		Rules: []ruleFn{c19R1, c19R2, c19R3, c19R4, c19R5,
 			lockRuleFor("C19-R6", 20, []string{"updater"}, []string{}, map[string]string{"updater.(*RegistryState).StartOperation / s.operationLock": "StartOperation/EndOperation bracket an updater operation; EndOperation releases operationLock"}),
 			c19R7,
 			repoErrRuleFor("C19-R8", 30, func(c *Ctx, fn *ssa.Function) bool { return short(fn.Pkg.Pkg.Path()) == "updater" }, map[string]string{"updater.(*ResourceRegistry).fetchFile / utils/renameio.PendingFile.Cleanup": "deferred removal of the temp file is best effort; the temp dir is purged later"}),
-			c19R9},
+			c19R9, c19R10},
 	})
 }
 
